@@ -17,6 +17,7 @@ theorem RolesCore.of_sub {s s' : St} (h : RolesCore s) (e1 : s'.ras = s.ras) (e2
   · exact h.uniq.of_eq e1 e2
   · intro r hr a ha; rw [e1] at hr; exact (h.prop r hr a ha).of_seqs e2
   · intro r hr a ha; rw [e1] at hr; exact (h.succ r hr a ha).of_seqs e2
+  · intro r hr a ha q hq; rw [e1] at hr; rw [getSeq_congr e2] at hq; exact h.succFresh r hr a ha q hq
   · intro r hr a ha; rw [e1] at hr; exact h.ne r hr a ha
   · intro q hq; rw [e2] at hq; exact h.optOut q hq
   · intro t a hta
@@ -31,6 +32,7 @@ theorem SuccProp.of_ras {s s' : St} (h : SuccProp s) (e : s'.ras = s.ras) : Succ
 /-- writing a rollapp record -/
 theorem RolesCore.of_setRa {s : St} {id : Nat} {r r0 : Rollapp} (h : RolesCore s) (hg0 : getRa s id = some r0) (hid : r.id = r0.id)
     (hp : ∀ a, r.proposer = some a → BondedOf s r.id a) (hs : ∀ a, r.successor = some a → BondedOf s r.id a)
+    (hsf : ∀ a, r.successor = some a → ∀ q, getSeq s a = some q → q.notice = none)
     (hne : ∀ a, r.proposer = some a → r.successor ≠ some a)
     (hnq : ∀ t a, (t, a) ∈ s.nq → r0.proposer = some a → r.proposer = some a) : RolesCore (setRa s r) := by
   have hg : getRa s r.id = some r0 := by rw [hid, getRa_id hg0]; exact hg0
@@ -44,6 +46,10 @@ theorem RolesCore.of_setRa {s : St} {id : Nat} {r r0 : Rollapp} (h : RolesCore s
     rcases mem_setRa hx with h1 | h1
     · exact (h.succ x h1 a ha).of_seqs rfl
     · subst h1; exact (hs a ha).of_seqs rfl
+  · intro x hx a ha
+    rcases mem_setRa hx with h1 | h1
+    · exact h.succFresh x h1 a ha
+    · subst h1; exact hsf a ha
   · intro x hx a ha
     rcases mem_setRa hx with h1 | h1
     · exact h.ne x h1 a ha
@@ -84,6 +90,7 @@ theorem BondedOf.of_setSeq {s : St} {q q0 : Seq} {id : Nat} {a : Addr} (h : Bond
 theorem RolesCore.of_setSeq {s : St} {a0 : Addr} {q q0 : Seq} (h : RolesCore s) (hg0 : getSeq s a0 = some q0) (ha0 : q.addr = q0.addr)
     (hr : q.rollapp = q0.rollapp)
     (hb : q0.bonded = true → q.bonded = true ∨ ∀ r ∈ s.ras, r.proposer ≠ some q.addr ∧ r.successor ≠ some q.addr)
+    (hsn : q.notice = q0.notice ∨ ∀ r ∈ s.ras, r.successor ≠ some q.addr)
     (ho : q.notice.isSome = true → q.optedIn = false)
     (hn : ∀ t, (t, q.addr) ∈ s.nq → q.notice = some t) : RolesCore (setSeq s q) := by
   have hg : getSeq s q.addr = some q0 := by rw [ha0, getSeq_addr hg0]; exact hg0
@@ -101,6 +108,15 @@ theorem RolesCore.of_setSeq {s : St} {a0 : Addr} {q q0 : Seq} (h : RolesCore s) 
     rcases hb hb0 with hb | hb
     · exact Or.inl hb
     · right; intro e; subst e; exact (hb r hr').2 ha
+  · intro r hr' a ha x hx
+    by_cases hc : a = q.addr
+    · subst hc
+      rw [getSeq_setSeq_same hg] at hx; injection hx with hx; subst hx
+      rcases hsn with hsn | hsn
+      · rw [hsn]; exact h.succFresh r hr' _ ha q0 hg
+      · exact absurd ha (hsn r hr')
+    · rw [getSeq_setSeq_other (Ne.symm hc)] at hx
+      exact h.succFresh r hr' a ha x hx
   · exact h.ne
   · intro x hx
     rcases mem_setSeq hx with h1 | h1
@@ -134,6 +150,13 @@ theorem RolesCore.of_mapSeqs {s : St} (h : RolesCore s) (f : Seq → Seq) (ha : 
     exact ⟨h.uniq.ids, h.uniq.addrs.of_addrs_eq hm, h.uniq.sorted.of_addrs_eq hm⟩
   · intro r hr' a hp; exact hbo _ _ (h.prop r hr' a hp)
   · intro r hr' a hp; exact hbo _ _ (h.succ r hr' a hp)
+  · intro r hr' a hp x hx
+    rw [getSeq_mapSeqs s f ha] at hx
+    cases hq : getSeq s a with
+    | none => rw [hq] at hx; cases hx
+    | some y =>
+      rw [hq] at hx; injection hx with hx; subst hx
+      rw [hn]; exact h.succFresh r hr' a hp y hq
   · exact h.ne
   · intro x hx hnx
     obtain ⟨y, hy, rfl⟩ := List.mem_map.1 hx
@@ -236,6 +259,10 @@ theorem RolesCore.of_insertRa {s : St} {r : Rollapp} (h : RolesCore s) (hf : get
     · exact (h.succ x h1 a ha).of_seqs rfl
   · intro x hx a ha
     rcases hmem x hx with h1 | h1
+    · subst h1; rw [hs] at ha; cases ha
+    · exact h.succFresh x h1 a ha
+  · intro x hx a ha
+    rcases hmem x hx with h1 | h1
     · subst h1; rw [hp] at ha; cases ha
     · exact h.ne x h1 a ha
   · exact h.optOut
@@ -268,6 +295,10 @@ theorem RolesCore.of_insertSeq {s : St} {q : Seq} (h : RolesCore s) (hf : getSeq
   · exact ⟨h.uniq.ids, nodup_insert s.seqs q h.uniq.addrs (getSeq_none hf), sorted_insert s.seqs q h.uniq.sorted (getSeq_none hf)⟩
   · intro r hr a ha; exact hbo _ _ (h.prop r hr a ha)
   · intro r hr a ha; exact hbo _ _ (h.succ r hr a ha)
+  · intro r hr a ha x hx
+    obtain ⟨q1, hq1, _⟩ := h.succ r hr a ha
+    rw [getSeq_insert_other (by intro e; rw [e, hq1] at hf; cases hf)] at hx
+    exact h.succFresh r hr a ha x hx
   · exact h.ne
   · intro x hx hnx
     rcases insertSorted_mem _ _ _ _ hx with h1 | h1
